@@ -214,7 +214,7 @@ def exhaustive(tier):
     # transforms) offered through every ROUTE: whatever the configuration holds afterwards meets the field's constraints
     from . import c05
     for c in c05.exhaustive(tier):
-        if c["spec"]["kind"] in ("str", "loglevel", "int", "float", "port", "host", "url"):
+        if c["spec"]["kind"] in ("str", "loglevel", "int", "float", "port", "host", "url") or (c["spec"]["kind"] == "bool" and not str(c["value"]).isascii()):
             yield {"mode": "strict-grid", "spec": c["spec"], "value": c["value"]}
 
 
